@@ -6,7 +6,7 @@ namespace Sio.Simple
 
 /-- consumer pcs between the empty-buffer test and the next one -/
 def CPc.inLoop : CPc → Bool
-  | .r1 | .r1w | .r2 | .r3 | .r3w | .r4 => true
+  | .r1 | .r1w | .r2 | .r2b | .r3 | .r3w | .r4 => true
   | _ => false
 
 /-- consumer pcs after the empty-buffer test and before the call of `input_event.wait` returns -/
@@ -14,9 +14,10 @@ def CPc.preInput : CPc → Bool
   | .r1 | .r1w | .r2 | .r3 => true
   | _ => false
 
-/-- about to read `self.connected` -/
+/-- past the wait on `connected_event`: about to read `self.connected`, or (receive) having read it
+    `False` and about to test the buffer -/
 def CPc.readsConn : CPc → Bool
-  | .r2 | .e2 => true
+  | .r2 | .r2b | .e2 => true
   | _ => false
 
 /-- What may be said about a finished call from the snapshot taken when it finished. -/
@@ -29,9 +30,11 @@ def Good (e : Outcome × View) : Prop :=
       ((e.2.pc = .r3w ∧ e.2.signalled ≤ e.2.returnedN ∧ e.2.iev = false) ∨
        (e.2.pc = .r1w ∧ e.2.cev = false))
   | .disconnectedErr =>
-      e.2.ended = true ∧ e.2.conn = false ∧ e.2.fresh = false ∧
-      ((e.2.pc = .r2 ∧ e.2.returnedN = e.2.seen ∧ e.2.seen ≤ e.2.arrivedN ∧
-        e.2.buf.length + e.2.returnedN = e.2.arrivedN) ∨ e.2.pc = .e2)
+      e.2.fresh = false ∧ (e.2.conn = false → e.2.ended = true) ∧
+      (e.2.revived = false → e.2.ended = true ∧ e.2.conn = false) ∧
+      ((e.2.pc = .r2b ∧ e.2.buf = [] ∧ e.2.returnedN = e.2.arrivedN ∧ e.2.signalled ≤ e.2.returnedN ∧
+        e.2.endedRd = true) ∨
+       (e.2.pc = .e2 ∧ e.2.ended = true ∧ e.2.conn = false))
   | .indexErr => False
 
 def LogOK (l : List (Outcome × View)) : Prop := ∀ e ∈ l, Good e
@@ -64,14 +67,16 @@ structure Inv (s : State) : Prop where
   wokenNF : s.cpc.waitsConn = true → s.woken = true → s.fresh = false
   reconC : s.recon = true → s.cev = false
   parkedC : s.cpc.waitsConn = true → s.woken = false → s.cev = false
+  r2bEnded : s.cpc = .r2b → s.endedRd = true
+  r2bConn : s.cpc = .r2b → s.revived = false → s.conn = false
   logOK : LogOK s.log
 
 theorem inv_init : Inv init := by
-  refine ⟨?_, ?_, ?_, ?_, ?_, ?_, ?_, ?_, ?_, ?_, ?_, ?_, ?_, ?_, ?_, ?_, ?_, ?_⟩ <;>
+  refine ⟨?_, ?_, ?_, ?_, ?_, ?_, ?_, ?_, ?_, ?_, ?_, ?_, ?_, ?_, ?_, ?_, ?_, ?_, ?_, ?_⟩ <;>
     simp [init, CPc.inLoop, CPc.preInput, CPc.readsConn, CPc.waitsConn, LogOK.nil]
 
 macro "inv_fields" : tactic =>
-  `(tactic| refine ⟨?_, ?_, ?_, ?_, ?_, ?_, ?_, ?_, ?_, ?_, ?_, ?_, ?_, ?_, ?_, ?_, ?_, ?_⟩)
+  `(tactic| refine ⟨?_, ?_, ?_, ?_, ?_, ?_, ?_, ?_, ?_, ?_, ?_, ?_, ?_, ?_, ?_, ?_, ?_, ?_, ?_, ?_⟩)
 
 macro "inv_auto" : tactic => `(tactic| (
   first
@@ -91,7 +96,7 @@ theorem range_split {l r : List Nat} {x n : Nat} (h : l ++ x :: r = List.range n
 
 
 theorem inv_cons_idle {s : State} (ok : Bool) (h : Inv s) (hc : s.cpc = .idle) : Inv (consStep s ok) := by
-  obtain ⟨h1, h2, h3, h4, h5, h5b, h6, h7, h8, h9, h10, h11, h12, h13, h14, h15, h16, h17⟩ := h
+  obtain ⟨h1, h2, h3, h4, h5, h5b, h6, h7, h8, h9, h10, h11, h12, h13, h14, h15, h16, h18, h19, h17⟩ := h
   simp only [consStep, hc]
   skip
   all_goals
@@ -102,7 +107,7 @@ theorem inv_cons_idle {s : State} (ok : Bool) (h : Inv s) (hc : s.cpc = .idle) :
     all_goals inv_auto
 
 theorem inv_cons_r0 {s : State} (ok : Bool) (h : Inv s) (hc : s.cpc = .r0) : Inv (consStep s ok) := by
-  obtain ⟨h1, h2, h3, h4, h5, h5b, h6, h7, h8, h9, h10, h11, h12, h13, h14, h15, h16, h17⟩ := h
+  obtain ⟨h1, h2, h3, h4, h5, h5b, h6, h7, h8, h9, h10, h11, h12, h13, h14, h15, h16, h18, h19, h17⟩ := h
   simp only [consStep, hc]
   all_goals (try split)
   all_goals
@@ -113,7 +118,7 @@ theorem inv_cons_r0 {s : State} (ok : Bool) (h : Inv s) (hc : s.cpc = .r0) : Inv
     all_goals inv_auto
 
 theorem inv_cons_r1 {s : State} (ok : Bool) (h : Inv s) (hc : s.cpc = .r1) : Inv (consStep s ok) := by
-  obtain ⟨h1, h2, h3, h4, h5, h5b, h6, h7, h8, h9, h10, h11, h12, h13, h14, h15, h16, h17⟩ := h
+  obtain ⟨h1, h2, h3, h4, h5, h5b, h6, h7, h8, h9, h10, h11, h12, h13, h14, h15, h16, h18, h19, h17⟩ := h
   simp only [consStep, hc]
   all_goals (try split)
   all_goals
@@ -124,7 +129,7 @@ theorem inv_cons_r1 {s : State} (ok : Bool) (h : Inv s) (hc : s.cpc = .r1) : Inv
     all_goals inv_auto
 
 theorem inv_cons_r1w {s : State} (ok : Bool) (h : Inv s) (hc : s.cpc = .r1w) : Inv (consStep s ok) := by
-  obtain ⟨h1, h2, h3, h4, h5, h5b, h6, h7, h8, h9, h10, h11, h12, h13, h14, h15, h16, h17⟩ := h
+  obtain ⟨h1, h2, h3, h4, h5, h5b, h6, h7, h8, h9, h10, h11, h12, h13, h14, h15, h16, h18, h19, h17⟩ := h
   simp only [consStep, hc]
   all_goals (try split)
   all_goals
@@ -135,7 +140,18 @@ theorem inv_cons_r1w {s : State} (ok : Bool) (h : Inv s) (hc : s.cpc = .r1w) : I
     all_goals inv_auto
 
 theorem inv_cons_r2 {s : State} (ok : Bool) (h : Inv s) (hc : s.cpc = .r2) : Inv (consStep s ok) := by
-  obtain ⟨h1, h2, h3, h4, h5, h5b, h6, h7, h8, h9, h10, h11, h12, h13, h14, h15, h16, h17⟩ := h
+  obtain ⟨h1, h2, h3, h4, h5, h5b, h6, h7, h8, h9, h10, h11, h12, h13, h14, h15, h16, h18, h19, h17⟩ := h
+  simp only [consStep, hc]
+  all_goals (try split)
+  all_goals
+    inv_fields
+    · simpa [finish] using h1
+    · simpa [finish] using h2
+    all_goals clear h2
+    all_goals inv_auto
+
+theorem inv_cons_r2b {s : State} (ok : Bool) (h : Inv s) (hc : s.cpc = .r2b) : Inv (consStep s ok) := by
+  obtain ⟨h1, h2, h3, h4, h5, h5b, h6, h7, h8, h9, h10, h11, h12, h13, h14, h15, h16, h18, h19, h17⟩ := h
   simp only [consStep, hc]
   all_goals (try split)
   all_goals
@@ -146,7 +162,7 @@ theorem inv_cons_r2 {s : State} (ok : Bool) (h : Inv s) (hc : s.cpc = .r2) : Inv
     all_goals inv_auto
 
 theorem inv_cons_r3 {s : State} (ok : Bool) (h : Inv s) (hc : s.cpc = .r3) : Inv (consStep s ok) := by
-  obtain ⟨h1, h2, h3, h4, h5, h5b, h6, h7, h8, h9, h10, h11, h12, h13, h14, h15, h16, h17⟩ := h
+  obtain ⟨h1, h2, h3, h4, h5, h5b, h6, h7, h8, h9, h10, h11, h12, h13, h14, h15, h16, h18, h19, h17⟩ := h
   simp only [consStep, hc]
   all_goals (try split)
   all_goals
@@ -157,7 +173,7 @@ theorem inv_cons_r3 {s : State} (ok : Bool) (h : Inv s) (hc : s.cpc = .r3) : Inv
     all_goals inv_auto
 
 theorem inv_cons_r3w {s : State} (ok : Bool) (h : Inv s) (hc : s.cpc = .r3w) : Inv (consStep s ok) := by
-  obtain ⟨h1, h2, h3, h4, h5, h5b, h6, h7, h8, h9, h10, h11, h12, h13, h14, h15, h16, h17⟩ := h
+  obtain ⟨h1, h2, h3, h4, h5, h5b, h6, h7, h8, h9, h10, h11, h12, h13, h14, h15, h16, h18, h19, h17⟩ := h
   simp only [consStep, hc]
   all_goals (try split)
   all_goals
@@ -168,7 +184,7 @@ theorem inv_cons_r3w {s : State} (ok : Bool) (h : Inv s) (hc : s.cpc = .r3w) : I
     all_goals inv_auto
 
 theorem inv_cons_r4 {s : State} (ok : Bool) (h : Inv s) (hc : s.cpc = .r4) : Inv (consStep s ok) := by
-  obtain ⟨h1, h2, h3, h4, h5, h5b, h6, h7, h8, h9, h10, h11, h12, h13, h14, h15, h16, h17⟩ := h
+  obtain ⟨h1, h2, h3, h4, h5, h5b, h6, h7, h8, h9, h10, h11, h12, h13, h14, h15, h16, h18, h19, h17⟩ := h
   simp only [consStep, hc]
   skip
   all_goals
@@ -179,7 +195,7 @@ theorem inv_cons_r4 {s : State} (ok : Bool) (h : Inv s) (hc : s.cpc = .r4) : Inv
     all_goals inv_auto
 
 theorem inv_cons_e1 {s : State} (ok : Bool) (h : Inv s) (hc : s.cpc = .e1) : Inv (consStep s ok) := by
-  obtain ⟨h1, h2, h3, h4, h5, h5b, h6, h7, h8, h9, h10, h11, h12, h13, h14, h15, h16, h17⟩ := h
+  obtain ⟨h1, h2, h3, h4, h5, h5b, h6, h7, h8, h9, h10, h11, h12, h13, h14, h15, h16, h18, h19, h17⟩ := h
   simp only [consStep, hc]
   all_goals (try split)
   all_goals
@@ -190,7 +206,7 @@ theorem inv_cons_e1 {s : State} (ok : Bool) (h : Inv s) (hc : s.cpc = .e1) : Inv
     all_goals inv_auto
 
 theorem inv_cons_e1w {s : State} (ok : Bool) (h : Inv s) (hc : s.cpc = .e1w) : Inv (consStep s ok) := by
-  obtain ⟨h1, h2, h3, h4, h5, h5b, h6, h7, h8, h9, h10, h11, h12, h13, h14, h15, h16, h17⟩ := h
+  obtain ⟨h1, h2, h3, h4, h5, h5b, h6, h7, h8, h9, h10, h11, h12, h13, h14, h15, h16, h18, h19, h17⟩ := h
   simp only [consStep, hc]
   all_goals (try split)
   all_goals
@@ -201,7 +217,7 @@ theorem inv_cons_e1w {s : State} (ok : Bool) (h : Inv s) (hc : s.cpc = .e1w) : I
     all_goals inv_auto
 
 theorem inv_cons_e2 {s : State} (ok : Bool) (h : Inv s) (hc : s.cpc = .e2) : Inv (consStep s ok) := by
-  obtain ⟨h1, h2, h3, h4, h5, h5b, h6, h7, h8, h9, h10, h11, h12, h13, h14, h15, h16, h17⟩ := h
+  obtain ⟨h1, h2, h3, h4, h5, h5b, h6, h7, h8, h9, h10, h11, h12, h13, h14, h15, h16, h18, h19, h17⟩ := h
   simp only [consStep, hc]
   all_goals (try split)
   all_goals
@@ -212,7 +228,7 @@ theorem inv_cons_e2 {s : State} (ok : Bool) (h : Inv s) (hc : s.cpc = .e2) : Inv
     all_goals inv_auto
 
 theorem inv_cons_e3 {s : State} (ok : Bool) (h : Inv s) (hc : s.cpc = .e3) : Inv (consStep s ok) := by
-  obtain ⟨h1, h2, h3, h4, h5, h5b, h6, h7, h8, h9, h10, h11, h12, h13, h14, h15, h16, h17⟩ := h
+  obtain ⟨h1, h2, h3, h4, h5, h5b, h6, h7, h8, h9, h10, h11, h12, h13, h14, h15, h16, h18, h19, h17⟩ := h
   simp only [consStep, hc]
   all_goals (try split)
   all_goals
@@ -223,7 +239,7 @@ theorem inv_cons_e3 {s : State} (ok : Bool) (h : Inv s) (hc : s.cpc = .e3) : Inv
     all_goals inv_auto
 
 theorem inv_cons_r5 {s : State} (ok : Bool) (h : Inv s) (hc : s.cpc = .r5) : Inv (consStep s ok) := by
-  obtain ⟨h1, h2, h3, h4, h5, h5b, h6, h7, h8, h9, h10, h11, h12, h13, h14, h15, h16, h17⟩ := h
+  obtain ⟨h1, h2, h3, h4, h5, h5b, h6, h7, h8, h9, h10, h11, h12, h13, h14, h15, h16, h18, h19, h17⟩ := h
   simp only [consStep, hc]
   split
   next x rest hb =>
@@ -234,7 +250,7 @@ theorem inv_cons_r5 {s : State} (ok : Bool) (h : Inv s) (hc : s.cpc = .r5) : Inv
     · simpa [finish] using h2
     · simp [finish]
     all_goals clear h2
-    iterate 14 (simp_all [finish, CPc.waitsConn, CPc.preInput, CPc.inLoop, CPc.readsConn]; try omega)
+    iterate 16 (simp_all [finish, CPc.waitsConn, CPc.preInput, CPc.inLoop, CPc.readsConn]; try omega)
     · simp only [finish]
       refine LogOK.snoc h17 ?_
       simp [Good, view, hc, hb, hx]
@@ -247,6 +263,7 @@ theorem inv_cons {s : State} (ok : Bool) (h : Inv s) : Inv (consStep s ok) := by
   · exact inv_cons_r1 ok h hc
   · exact inv_cons_r1w ok h hc
   · exact inv_cons_r2 ok h hc
+  · exact inv_cons_r2b ok h hc
   · exact inv_cons_r3 ok h hc
   · exact inv_cons_r3w ok h hc
   · exact inv_cons_r4 ok h hc
@@ -257,7 +274,7 @@ theorem inv_cons {s : State} (ok : Bool) (h : Inv s) : Inv (consStep s ok) := by
   · exact inv_cons_e3 ok h hc
 
 theorem inv_prod {s : State} (h : Inv s) : Inv (prodStep s) := by
-  obtain ⟨h1, h2, h3, h4, h5, h5b, h6, h7, h8, h9, h10, h11, h12, h13, h14, h15, h16, h17⟩ := h
+  obtain ⟨h1, h2, h3, h4, h5, h5b, h6, h7, h8, h9, h10, h11, h12, h13, h14, h15, h16, h18, h19, h17⟩ := h
   unfold prodStep
   split
   next hp =>
@@ -276,7 +293,7 @@ theorem inv_prod {s : State} (h : Inv s) : Inv (prodStep s) := by
     all_goals (cases hc : s.cpc <;> simp_all [CPc.waitsConn, CPc.preInput, CPc.inLoop, CPc.readsConn])
 
 theorem inv_timeout {s : State} (h : Inv s) : Inv (timeoutStep s) := by
-  obtain ⟨h1, h2, h3, h4, h5, h5b, h6, h7, h8, h9, h10, h11, h12, h13, h14, h15, h16, h17⟩ := h
+  obtain ⟨h1, h2, h3, h4, h5, h5b, h6, h7, h8, h9, h10, h11, h12, h13, h14, h15, h16, h18, h19, h17⟩ := h
   unfold timeoutStep
   split
   next hct =>
@@ -286,10 +303,10 @@ theorem inv_timeout {s : State} (h : Inv s) : Inv (timeoutStep s) := by
     · simpa [finish] using h2
     all_goals clear h2
     all_goals (rcases hct with ⟨⟨hpc | hpc, htm⟩, hw⟩ <;> inv_auto)
-  next => exact ⟨h1, h2, h3, h4, h5, h5b, h6, h7, h8, h9, h10, h11, h12, h13, h14, h15, h16, h17⟩
+  next => exact ⟨h1, h2, h3, h4, h5, h5b, h6, h7, h8, h9, h10, h11, h12, h13, h14, h15, h16, h18, h19, h17⟩
 
 theorem inv_start {s : State} (op : Op) (h : Inv s) : Inv (startStep s op) := by
-  obtain ⟨h1, h2, h3, h4, h5, h5b, h6, h7, h8, h9, h10, h11, h12, h13, h14, h15, h16, h17⟩ := h
+  obtain ⟨h1, h2, h3, h4, h5, h5b, h6, h7, h8, h9, h10, h11, h12, h13, h14, h15, h16, h18, h19, h17⟩ := h
   unfold startStep
   split
   next hc =>
@@ -299,10 +316,10 @@ theorem inv_start {s : State} (op : Op) (h : Inv s) : Inv (startStep s op) := by
       · simpa using h2
       all_goals clear h2
       all_goals inv_auto
-  next => exact ⟨h1, h2, h3, h4, h5, h5b, h6, h7, h8, h9, h10, h11, h12, h13, h14, h15, h16, h17⟩
+  next => exact ⟨h1, h2, h3, h4, h5, h5b, h6, h7, h8, h9, h10, h11, h12, h13, h14, h15, h16, h18, h19, h17⟩
 
 theorem inv_conn_idle {s : State} (k : Conn) (h : Inv s) (hk : s.kpc = .idle) : Inv (connStep s k) := by
-  obtain ⟨h1, h2, h3, h4, h5, h5b, h6, h7, h8, h9, h10, h11, h12, h13, h14, h15, h16, h17⟩ := h
+  obtain ⟨h1, h2, h3, h4, h5, h5b, h6, h7, h8, h9, h10, h11, h12, h13, h14, h15, h16, h18, h19, h17⟩ := h
   simp only [connStep, hk]
   cases k <;> simp only []
   all_goals
@@ -313,7 +330,7 @@ theorem inv_conn_idle {s : State} (k : Conn) (h : Inv s) (hk : s.kpc = .idle) : 
     all_goals (first | (inv_auto; done) | (cases hc : s.cpc <;> inv_auto))
 
 theorem inv_conn_cmid {s : State} (k : Conn) (h : Inv s) (hk : s.kpc = .connectMid) : Inv (connStep s k) := by
-  obtain ⟨h1, h2, h3, h4, h5, h5b, h6, h7, h8, h9, h10, h11, h12, h13, h14, h15, h16, h17⟩ := h
+  obtain ⟨h1, h2, h3, h4, h5, h5b, h6, h7, h8, h9, h10, h11, h12, h13, h14, h15, h16, h18, h19, h17⟩ := h
   simp only [connStep, hk]
   skip
   all_goals
@@ -324,7 +341,7 @@ theorem inv_conn_cmid {s : State} (k : Conn) (h : Inv s) (hk : s.kpc = .connectM
     all_goals (first | (inv_auto; done) | (cases hc : s.cpc <;> inv_auto))
 
 theorem inv_conn_fmid {s : State} (k : Conn) (h : Inv s) (hk : s.kpc = .finalMid) : Inv (connStep s k) := by
-  obtain ⟨h1, h2, h3, h4, h5, h5b, h6, h7, h8, h9, h10, h11, h12, h13, h14, h15, h16, h17⟩ := h
+  obtain ⟨h1, h2, h3, h4, h5, h5b, h6, h7, h8, h9, h10, h11, h12, h13, h14, h15, h16, h18, h19, h17⟩ := h
   simp only [connStep, hk]
   skip
   all_goals
